@@ -187,6 +187,63 @@ def t05_skip(run, fx):
         run.fail(rule, "skip:apply_pos", "apply_pos does not locate the nested lookup position with find_nth(infos, index, pos_index)", "%s:%s" % (b.file, b.line))
 
 
+def t05_base(run, fx):
+    rule = "T05-BASE"
+    run.rule(rule, "nested MarkToBase / MarkToLigature attachment (apply_pos): the glyph a mark attaches to is the closest preceding non-mark "
+                   "glyph whatever the nested lookup's flags say - the base index handed to markbasepos / markligpos comes from "
+                   "MatchType::ignore_marks().find_prev(.., i1), not from the lookup-flag match type")
+    b = fx.body("gpos::apply_pos")
+    if b is None:
+        return run.anchor_missing(rule, "gpos::apply_pos")
+    prov = sym.Prov(b)
+    n = 0
+    for bi, t in b.calls():
+        if not (callee_is(t, "gpos::markbasepos") or callee_is(t, "gpos::markligpos")):
+            continue
+        n += 1
+        name = (t["callee"].get("path") or "").split("::")[-1]
+        # the base index is the argument that comes out of a find_prev search
+        fp = []
+        base = ("?",)
+        for a in t["args"]:
+            ta = prov.op(a)
+            got = [x for x in sym.walk(ta) if x[0] == "call" and (x[4] or x[1] or "").endswith("MatchType::find_prev")]
+            if got:
+                fp.extend(got)
+                base = ta
+        ok = bool(fp)
+        for x in fp:
+            recv = sym.strip(x[2][0]) if x[2] else ("?",)
+            while recv[0] in ("ref", "deref"):
+                recv = sym.strip(recv[1])
+            if not (recv[0] == "call" and (recv[4] or recv[1] or "").endswith("MatchType::ignore_marks")):
+                ok = False
+        if ok:
+            run.ok(rule, "apply_pos: base of %s = MatchType::ignore_marks().find_prev(..)" % name)
+        else:
+            run.fail(rule, "base:%s" % name, "apply_pos: the base index of %s (%s) does not come from MatchType::ignore_marks().find_prev(..): a mark between the base "
+                     "and the attached mark is taken for the base when the nested lookup does not ignore marks" % (name, sym.show(sym.strip(base))[:90]), b.loc(t))
+    if n < 2:
+        run.anchor_missing(rule, "calls of markbasepos and markligpos in apply_pos")
+
+
+def t05_ord(run, fx):
+    rule = "T05-ORD"
+    run.rule(rule, "glyph_positions resolves relative placements in dependency order: cursive attachment offsets are applied to the bases "
+                   "before marks are moved onto their bases (adjust_cursive_connections -> position_marks on every path), so a mark on a "
+                   "cursively shifted glyph follows it")
+    bs = [b for b in fx.bodies if b.kind != "Closure" and b.root.endswith("::glyph_positions") and "GlyphLayout" in b.root]
+    if not bs:
+        return run.anchor_missing(rule, "GlyphLayout::glyph_positions")
+    import reach
+    for b in bs[:1]:
+        ok, msg = reach.ordered_calls(b, ["::adjust_cursive_connections", "::position_marks"])
+        if ok:
+            run.ok(rule, "glyph_positions: %s" % msg)
+        else:
+            run.fail(rule, "position-order", "glyph_positions: %s" % msg, "%s:%s" % (b.file, b.line))
+
+
 def check(run, fx, tier, floors=True):
     run.rule("T05-TYPE", "GPOS::check_lookup_type is the table {1: SinglePos, 2: PairPos, 3: CursivePos, 4: MarkBasePos, 5: MarkLigPos, 6: MarkMarkPos, "
                          "7: ContextPos, 8: ChainContextPos, 9: Extension}; every other number is an error")
@@ -198,3 +255,6 @@ def check(run, fx, tier, floors=True):
     t05_vr(run, fx)
     t05_disp(run, fx)
     t05_skip(run, fx)
+    t05_base(run, fx)
+    if floors or any(b.root.endswith("::glyph_positions") for b in fx.bodies):
+        t05_ord(run, fx)
